@@ -229,6 +229,13 @@ func (cli *Client) EnrollContext(c net.Conn, ctx any) (Conn, error) {
 	if e != nil {
 		return nil, e
 	}
+	// Close the duplicated descriptor on every failure before it is handed over to the event-loop.
+	registered := false
+	defer func() {
+		if !registered {
+			_ = unix.Close(dupFD)
+		}
+	}()
 
 	if cli.opts.SocketSendBuffer > 0 {
 		if err = socket.SetSendBuffer(dupFD, cli.opts.SocketSendBuffer); err != nil {
@@ -297,6 +304,7 @@ func (cli *Client) EnrollContext(c net.Conn, ctx any) (Conn, error) {
 		gc.Close() //nolint:errcheck
 		return nil, err
 	}
+	registered = true
 	<-connOpened
 
 	return gc, nil
